@@ -122,6 +122,12 @@ listed as a finding.
   after the first had released the handler changed disk and behaviour, and R1/R2/R3 of the
   first update fired; an accepted second update is now excluded from those comparisons and
   judged by R5 alone.
+* **C08 R5 on a second update that was itself hit by several faults** (thorough sweep with
+  VERIF_SEED=8, seed 8001141, on the unchanged tree): the faults armed for a run are keyed by
+  operation and occurrence, not by update, so a second update that the handler accepted for
+  processing met an injected HAProxy failure and then a read failure inside its own roll-back;
+  it was answered 422 and left its file behind. Two failures in one update are outside the
+  fault model for the first update (R1/R2) and are now outside it for the second one as well.
 * **C02 fixed-window child outside its parent's filter** (wave g, never committed as
   failing): with a fixed-window internal limit on `a.com/c` below a concurrency quota on
   `a.com/p` the parent's slot was not given back on the response, only at expiry: a
@@ -326,6 +332,31 @@ recorded as not decided rather than as caught or missed.
 While reading for C18h the sub-agent noticed that an earlier repair of this effort
 (`5a7a63d`) had introduced a lock-order inversion between `MapVacuum.vacuum` and
 `concurrency.Limiter.TryTakeSlot`; corrected by `219b1de` (section 11.1).
+
+Ninth wave (suffix i), 16 changes: 4 were caught as delivered (C02i, C11i, C15i, C19i),
+12 were missed at first. What was changed:
+C09i (only the window size ever changed between requests: allowance and percentage changes
+that keep the window size; bound against the largest share met in the window),
+C10i (no rule said when a request may be made to wait: R5 now demands that every slot of its
+window had been handed out before the decision),
+C20i (the scripted predicate always answered within a third of an interval: one evaluation
+per run may hang for 2, 5 or 30 intervals; an evaluation is an observation once it answered),
+C01i (no percentage-allocated internal limits, no sibling limits: both added),
+C05i (processor parameters were scalars: list and map values with elements of mixed kinds),
+C12i (absolute Retry-After instants were always in the future: instants already over added),
+C03i (one spelling per URL pattern: trailing slashes),
+C08i (configuration files of a few hundred bytes: one of 1.3 MB),
+C17i (multiplier at least 1 and at least a millisecond between responses: zero multiplier,
+responses at once),
+C04i (processors were only referred to by the flow that defines them: `f1.g1` used by f0),
+C18i (a lost update on the vacuum's entry list, invisible to the race detector: scenario C18V
+holds the vacuum goroutine inside a pass while a key is registered and checks that every
+registered key leaves the map),
+C06i (a read lock taken twice by the processing loop, deadlocking with a writer in between:
+needed tasks parked inside critical sections and blocking on locks - the simulated blocking
+described in section 0 was built for it; scenario C06L reports the deadlock with the tasks
+and lock sites involved, and scenario C18L, built on the same kernel feature, re-detects the
+lock-order inversion that `219b1de` had corrected).
 
 ### 12.1 Reverting the repairs
 
